@@ -618,6 +618,24 @@ def gen_conc(repo, build):
                 fn = enclosing_function(raw, m.start())
                 if fn is not None:
                     writers.setdefault(n, set()).add(fn)
+    # queries on a (shared) keyring must not write it: list mutations, stores through pointers, allocation
+    jsrc = open(os.path.join(repo, "libjwt/jwks.c")).read()
+    jsrc = re.sub(r"/\*.*?\*/", " ", jsrc, flags=re.S)
+    jsrc = re.sub(r"//[^\n]*", " ", jsrc)
+    queries = ["jwks_find_bykid", "jwks_item_get", "jwks_item_count", "jwks_error_any", "jwks_item_is_private", "jwks_item_error",
+               "jwks_item_error_msg", "jwks_item_curve", "jwks_item_kid", "jwks_item_alg", "jwks_item_kty", "jwks_item_use",
+               "jwks_item_key_ops", "jwks_item_pem", "jwks_item_key_oct", "jwks_item_key_bits", "jwks_error", "jwks_error_msg"]
+    qwrites = []
+    for q in queries:
+        try:
+            qb = func_body(jsrc, r"\b%s\s*\([^;{]*\)\s*\{" % q)
+        except ExtractError:
+            raise ExtractError("jwks.c: query function %s not found" % q)
+        nw = len(re.findall(r"\b(?:list_add|list_add_tail|list_del|list_insert|list_join_nodes|list_splice\w*|INIT_LIST_HEAD|jwt_freemem|jwt_malloc|jwt_realloc|memset|memcpy|strcpy|snprintf)\s*\(", qb))
+        nw += len(re.findall(r"(?:->|\.)\s*\w+(?:\s*\[[^\]]*\])?\s*(?:=[^=]|\+\+|--|[-+|&^]=)", qb))
+        nw += len(re.findall(r"(?:\+\+|--)\s*\w+\s*(?:->|\.)", qb))
+        qwrites.append((q, nw))
+    qw = ", ".join('("%s", %d)' % t for t in qwrites)
     rows = ", ".join('("%s", "%s", "%s")' % w for w in writable)
     wr = ", ".join('("%s", [%s])' % (n, ", ".join('"%s"' % f for f in sorted(fs))) for n, fs in sorted(writers.items()))
     text = f"""/- GENERATED by tie/extract.py from the symbol table of the freshly built libjwt.a (nm: writable data/bss,
@@ -636,9 +654,15 @@ def opsTableWrites : Nat := {table_writes}
 /-- casts to a non-const `jwk_item_t *` in the library sources (a way to write through the const key) -/
 def keyConstCasts : Nat := {casts}
 
+/-- jwks.c: per query function on a keyring or key item (lookups and getters, the calls verify/generate
+callbacks make on a shared keyring), the number of list mutations, allocations/frees, buffer writes and
+stores through a pointer or member in its body -/
+def keyringQueryWrites : List (String × Nat) := [{qw}]
+
 end Jwt.Generated
 """
-    return "ConcFacts.lean", text, {"statics": writable, "writers": {k: sorted(v) for k, v in writers.items()}, "table_writes": table_writes, "casts": casts}
+    return "ConcFacts.lean", text, {"statics": writable, "writers": {k: sorted(v) for k, v in writers.items()}, "table_writes": table_writes, "casts": casts,
+                                    "query_writes": qwrites}
 
 
 def gen_ecframe(repo, build):
